@@ -18,11 +18,13 @@
 #include <morfuse/Script/EventSystem.h>
 #include <morfuse/Script/Event.h>
 #include <morfuse/Script/Listener.h>
+#include <morfuse/Script/Archiver.h>
 #include <morfuse/Common/Time.h>
 #include "lineio.h"
 
 #include <map>
 #include <memory>
+#include <sstream>
 #include <string>
 #include <vector>
 
@@ -33,6 +35,7 @@ constexpr size_t NL = 3;          // listener ids 1..NL
 constexpr size_t NT = 4;          // event types 0..NT
 
 struct Action { char kind; long a, b, c, d; };   // p(ost) l t d f | T(ype cancel) l t | A(ll) l | F(lag) l f | D(estroy) l | K (tick) k
+                                                 // P(ostponeEvent) l t d | Q (PostponeAllEvents) l d
 
 uinttime_t g_clock = 1000;        // absolute injected clock; the engine sees g_clock - start
 uinttime_t clockFn() { return g_clock; }
@@ -46,7 +49,7 @@ std::string g_deliveries;
 unsigned long g_calls = 0;     // responses entered since the last `process` line started
 uinttime_t g_start = 1000;
 
-void perform(const Action& a, bool reentrant);
+bool perform(const Action& a, bool reentrant);
 
 class C08Host : public Listener {
     MFUS_CLASS_PROTOTYPE(C08Host);
@@ -97,25 +100,54 @@ long idOfListener(Listener* l)
 
 bool alive(long l) { return l >= 1 && l <= (long)NL && g_l[l]; }
 
-void perform(const Action& a, bool reentrant)
+// result: the boolean the engine returned (Postpone…), false otherwise
+bool perform(const Action& a, bool reentrant)
 {
     switch (a.kind) {
-    case 'K': g_clock += (uinttime_t)a.a; return;
+    case 'K': g_clock += (uinttime_t)a.a; return false;
     default: break;
     }
-    if (!alive(a.a)) return;
+    if (!alive(a.a)) return false;
     C08Host* const l = g_l[a.a];
     switch (a.kind) {
     case 'p': {
-        if (reentrant) { if (g_budget == 0) return; --g_budget; }
+        if (reentrant) { if (g_budget == 0) return false; --g_budget; }
         Event* ev = a.b == 0 ? new Event() : new Event(*defOf(a.b));
         ev->AddInteger((int32_t)g_seq++);
         l->PostEvent(ev, (inttime_t)a.c, (int)a.d);
-        return; }
-    case 'T': l->CancelEventsOfType(*defOf(a.b)); return;
-    case 'A': l->CancelPendingEvents(); return;
-    case 'F': l->CancelFlaggedEvents((int)a.b); return;
-    case 'D': g_l[a.a] = nullptr; delete l; return;
+        return false; }
+    case 'T': l->CancelEventsOfType(*defOf(a.b)); return false;
+    case 'A': l->CancelPendingEvents(); return false;
+    case 'F': l->CancelFlaggedEvents((int)a.b); return false;
+    case 'D': g_l[a.a] = nullptr; delete l; return false;
+    case 'P': {
+        if (a.b == 0) { Event ev; return l->PostponeEvent(ev, (inttime_t)a.c); }
+        Event ev(*defOf(a.b));
+        return l->PostponeEvent(ev, (inttime_t)a.c); }
+    case 'Q': return l->PostponeAllEvents((inttime_t)a.b);
+    }
+    return false;
+}
+
+// EventQueue::Archive, saving then loading, on the same context: the live listeners are archived first (so that
+// the queue's safe pointers have an object index) and read back into the same objects.
+void saveLoad(ScriptContext& ctx)
+{
+    version_info_t info;
+    info.header = "C08Q";
+    info.archiveName = "c08";
+    info.version = 1;
+    std::stringstream buf(std::ios::in | std::ios::out | std::ios::binary);
+    {
+        Archiver arc = Archiver::CreateWrite(buf, info);
+        for (size_t i = 1; i <= NL; ++i) if (g_l[i]) arc.ArchiveObject(*g_l[i]);
+        ctx.GetEventQueue().Archive(arc);
+    }
+    buf.seekg(0);
+    {
+        Archiver arc = Archiver::CreateRead(buf, info);
+        for (size_t i = 1; i <= NL; ++i) if (g_l[i]) arc.ArchiveObject(*g_l[i]);
+        ctx.GetEventQueue().Archive(arc);
     }
 }
 
@@ -183,6 +215,8 @@ bool parseAction(const std::string& tok, Action& a)
     if (h == "cf" && n.size() == 2 && okL(n[0]) && n[1] >= 0 && n[1] <= 7) { a = {'F', n[0], n[1], 0, 0}; return true; }
     if (h == "d" && n.size() == 1 && okL(n[0])) { a = {'D', n[0], 0, 0, 0}; return true; }
     if (h == "t" && n.size() == 1 && n[0] >= 0) { a = {'K', n[0], 0, 0, 0}; return true; }
+    if (h == "pp" && n.size() == 3 && okL(n[0]) && okT(n[1]) && n[2] >= 0) { a = {'P', n[0], n[1], n[2], 0}; return true; }
+    if (h == "pa" && n.size() == 2 && okL(n[0]) && n[1] >= 0) { a = {'Q', n[0], n[1], 0, 0}; return true; }
     return false;
 }
 }
@@ -211,6 +245,7 @@ int main()
         if (op != "handler") {
             for (size_t i = 1; i < t.size(); ++i) { long v; if (!parseInt(t[i], v)) { numeric = false; break; } n.push_back(v); }
         }
+        if (op == "reset" && t.size() == 3 && t[2] == "src") { t.pop_back(); numeric = true; n.clear(); long v; if (parseInt(t[1], v)) n.push_back(v); else numeric = false; }
         if (op == "reset" && numeric && n.size() == 1 && n[0] >= 0) {
             if (ctx) killAll();
             ctx.reset();
@@ -248,6 +283,34 @@ int main()
             g_calls = 0;
             ctx->ProcessEvents();
             say("ok d=" + g_deliveries + " " + dumpQueue(*ctx));
+            continue;
+        }
+        if (op == "processl" && n.size() == 1) {
+            if (!alive(n[0])) { say("bad-op"); continue; }
+            g_deliveries.clear();
+            g_calls = 0;
+            const bool r = g_l[n[0]]->ProcessPendingEvents();
+            say(std::string("ok r=") + (r ? "1" : "0") + " d=" + g_deliveries + " " + dumpQueue(*ctx));
+            continue;
+        }
+        if (op == "clear" && n.empty()) {
+            ctx->GetEventQueue().ClearEventList();
+            say("ok " + dumpQueue(*ctx));
+            continue;
+        }
+        if (op == "saveload" && n.empty()) {
+            saveLoad(*ctx);
+            // first use of the loaded nodes through the engine's own API (reads node->event)
+            for (size_t i = 1; i <= NL; ++i) if (g_l[i]) (void)g_l[i]->EventPending(EV_C08_1);
+            say("ok " + dumpQueue(*ctx));
+            continue;
+        }
+        if ((op == "postpone" && n.size() == 3 && okL(n[0]) && okT(n[1]) && n[2] >= 0) ||
+            (op == "postponeall" && n.size() == 2 && okL(n[0]) && n[1] >= 0)) {
+            if (!alive(n[0])) { say("bad-op"); continue; }
+            if (op == "postpone") a = {'P', n[0], n[1], n[2], 0}; else a = {'Q', n[0], n[1], 0, 0};
+            const bool r = perform(a, false);
+            say(std::string("ok r=") + (r ? "1" : "0") + " " + dumpQueue(*ctx));
             continue;
         }
         if (op == "post" && n.size() == 4 && okL(n[0]) && okT(n[1]) && n[3] >= 0 && n[3] <= 7) { a = {'p', n[0], n[1], n[2], n[3]}; isAct = true; }
